@@ -251,7 +251,7 @@ def exit_order(h, via, status='ACTIVE', oid='x'):
                            reduce_only=True, status=status, id=oid, submitted_via=via)
 
 
-def t_modify(kind, changed, nrows, orows=None):
+def t_modify(kind, changed, nrows, orows=None, near=False):
     """declared stop-loss / take-profit differs from the remembered one -> cancel tagged orders first, then one order per row"""
     def t(h):
         w = common.futures_world(h, mode=common.any_mode(h))
@@ -272,6 +272,10 @@ def t_modify(kind, changed, nrows, orows=None):
         s.f['_buy'] = entry
         new = rows2(h, 'n', nrows)
         for q, p in new:
+            if near:
+                # within 0.015 % of the current price but not equal to it: routed as a MARKET order that still carries the declared price
+                h.assume(ops.land(h.spec('near', p, cur), ops.lnot(ops.equal(p, cur))))
+                continue
             # declared on its own side of the current price and away from the boundary
             if kind == 'stop_loss':
                 h.assume(ops.compare('<', p, ops.arith('*', cur, Fraction('0.99'))))
@@ -309,7 +313,7 @@ def t_modify(kind, changed, nrows, orows=None):
         subs = [c for c in api.calls if c[0] != 'CANCEL']
         h.prove(len(subs) == nrows, f'modify.{kind}.one-new-order-per-declared-row', {'calls': kinds})
         if len(subs) == nrows:
-            wantk = 'STOP' if kind == 'stop_loss' else 'LIMIT'
+            wantk = 'MARKET' if near else ('STOP' if kind == 'stop_loss' else 'LIMIT')
             for (k2, args, o), (q, p) in zip(subs, new):
                 h.prove(k2 == wantk and o.f['submitted_via'] == tag, f'modify.{kind}.new-orders-are-{wantk.lower()}-and-tagged')
                 h.prove(ops.land(ops.equal(args[2], q), ops.equal(args[3], p)), f'modify.{kind}.new-orders-carry-the-declared-qty-and-price')
@@ -592,6 +596,7 @@ def tasks(tier):
         for n, o in ((1, 2), (2, 1), (2, 3)):
             ts.append(Task(f'modify.{kind}.rows{o}to{n}', t_modify(kind, True, n, o), extra=x, overrides=dict(ov)))
         ts.append(Task(f'modify.{kind}.rows1to0', t_modify(kind, True, 0, 1), extra=x, overrides=dict(ov)))
+        ts.append(Task(f'modify.{kind}.near', t_modify(kind, True, 1, None, near=True), extra=x, overrides=dict(ov)))
     for pt in ('long', 'short', 'close'):
         nsel = 3 if tier == 'quick' else 4
         ts.append(Task(f'selectors.{pt}', t_selectors(pt, nsel), extra=dict(x, bounded=f'registry of N={nsel} orders (side and status symbolic)'), overrides=dict(ov),
@@ -599,6 +604,8 @@ def tasks(tier):
     ts.append(Task('reset', t_reset, extra=x, overrides=dict(ov)))
     for kind in ('stop_loss', 'take_profit'):
         ts.append(Task(f'inplace.{kind}', t_inplace_edit(kind), extra=x, overrides=dict(ov)))
+    import props.C07 as P7
+    ts.append(Task('strategy-reads', P7.t_strategy_reads, extra=x))
     ts.append(Task('on-close', t_on_close, extra=x, overrides=dict(ov)))
     ts.append(Task('execute-cancel', t_execute_cancel, extra=x, overrides=dict(ov)))
     for n in (0, 1):
